@@ -20,7 +20,7 @@ RULE = ("seeded random DAG programs (float64 mostly, float32/float16 in a fracti
         "a non-None .grad is an ndarray of exactly the tensor's shape and dtype; constants have none. Non-trivial: >=2 gradients compared; "
         "distinct = structure hash + seed kind.")
 ASSUMPTIONS = ["both seeding forms perform the same floating-point operations up to summation order: compared at 64 eps of the dtype, scaled by the largest gradient seen"]
-TIERS = {"quick": {"cases": 4000, "nodes": (2, 9)}, "thorough": {"cases": 500000, "nodes": (3, 24)}}
+TIERS = {"quick": {"cases": 8000, "nodes": (2, 9)}, "thorough": {"cases": 500000, "nodes": (3, 24)}}
 FLOORS = {"quick": {"identity_compared": 15000, "gradinv_checks": 50000, "rejections": 600},
           "thorough": {"identity_compared": 75000, "gradinv_checks": 250000, "rejections": 3000}}
 SEEDKINDS = ["none", "pyscalar", "0d", "full", "full_f32", "bcast", "list", "tensor", "bad_size", "bad_mutual"]
